@@ -113,6 +113,52 @@ def handle (j : Json) : Json :=
         ("expvar", toJson (vecToBits F.expvar)), ("ratio", toJson (vecToBits (eofRatio F total))),
         ("sgn", toJson (vecToBits sgn)), ("transform", toJson (matToBits tf)), ("inverse", toJson (matToBits inv))]
     else Json.mkObj [("status", "ValueError")]
+  | "cpcca" =>
+    -- CPCCA core in the whitened space: fields X (n×p), Y (n×q); oracle SVD of the cross-covariance Q1 (p×r), s, Q2 (q×r)
+    let n := getNat j "n"; let p := getNat j "p"; let q := getNat j "q"; let r := getNat j "r"; let k := getNat j "k"
+    if h : k ≤ r then
+      let X := matOfBits n p (getStrArr j "X"); let Y := matOfBits n q (getStrArr j "Y")
+      let Q1 := matOfBits p r (getStrArr j "Q1"); let Q2 := matOfBits q r (getStrArr j "Q2")
+      let sA := (getStrArr j "s").map bitsToFloat
+      let s : Fin r → Float := fun i => sA[i.val]!
+      let Q2k := Q2.firstCols k h
+      let sgn : Fin k → Float := fun jj => let mm := colMaxMin Q2k jj; Gen.signRuleXarrayF mm.1 mm.2
+      let F : CpccaFit n p q k Float Float := cpccaFit h X Y Q1 s Q2 sgn
+      let m := getNat j "m"
+      let Xn := matOfBits m p (getStrArr j "Xn")
+      let C : Mat p q Float := crossCov (ρ := Float) X Y
+      Json.mkObj [("status", "ok"), ("crosscov", toJson (matToBits C)),
+        ("comps1", toJson (matToBits F.comps1)), ("comps2", toJson (matToBits F.comps2)),
+        ("scores1", toJson (matToBits F.scores1)), ("scores2", toJson (matToBits F.scores2)),
+        ("svals", toJson (vecToBits F.svals)), ("sqcov", toJson (vecToBits F.sqcov)),
+        ("norm1", toJson (vecToBits F.norm1)), ("norm2", toJson (vecToBits F.norm2)),
+        ("transform1", toJson (matToBits (cpccaTransform1 F Xn false))),
+        ("transform1n", toJson (matToBits (cpccaTransform1 F Xn true))),
+        ("inverse1", toJson (matToBits (cpccaInverse1 F (cpccaTransform1 F Xn false))))]
+    else Json.mkObj [("status", "ValueError")]
+  | "rotator" =>
+    -- EOFRotator: unrotated comps0 (p×k), expvar0, scores0 (n×k), svals0; oracles R, RinvT (k×k)
+    let n := getNat j "n"; let p := getNat j "p"; let k := getNat j "k"; let m := getNat j "m"
+    let comps0 := matOfBits p k (getStrArr j "comps0"); let scores0 := matOfBits n k (getStrArr j "scores0")
+    let evA := (getStrArr j "expvar0").map bitsToFloat; let svA := (getStrArr j "svals0").map bitsToFloat
+    let expvar0 : Fin k → Float := fun i => evA[i.val]!
+    let svals0 : Fin k → Float := fun i => svA[i.val]!
+    let R := matOfBits k k (getStrArr j "R"); let RinvT := matOfBits k k (getStrArr j "RinvT")
+    let L : Mat p k Float := rotLoadings comps0 expvar0 R
+    let rc : Mat p k Float := rotComps (ρ := Float) L
+    let ev : Fin k → Float := rotExpvar L
+    let sgn : Fin k → Float := fun jj => let mm := colMaxMin rc jj; Gen.signRuleXarrayF mm.1 mm.2
+    -- descending order of the model's own explained variances (`argsort(expvar)[::-1]`)
+    let idx : List (Fin k) := (List.finRange k).mergeSort (fun a b => ev a ≥ ev b)
+    let perm : Fin k → Fin k := fun jj => idx.getD jj.val jj
+    let F : RotFit n p k Float Float := rotFit comps0 expvar0 scores0 svals0 R RinvT sgn perm
+    let X := matOfBits m p (getStrArr j "X")
+    let tf := rotTransform F comps0 svals0 RinvT perm X
+    Json.mkObj [("status", "ok"), ("rot_loadings", toJson (matToBits L)), ("comps", toJson (matToBits F.comps)),
+      ("scores", toJson (matToBits F.scores)), ("expvar", toJson (vecToBits F.expvar)), ("norms", toJson (vecToBits F.norms)),
+      ("sgn", toJson (vecToBits F.sgn)), ("perm", toJson ((List.finRange k).map fun jj => (perm jj).val)),
+      ("transform", toJson (matToBits tf)), ("inverse", toJson (matToBits (rotInverse F tf))),
+      ("uses_inverse", Gen.rotatorSingleUsesInverse (getInt j "power"))]
   | "scaler" =>
     let f : ScalerFlags := ⟨getBool j "with_center", getBool j "with_std", getBool j "with_coslat"⟩
     let P : ScalerParams Float := ⟨bitsToFloat (getStr j "mean"), bitsToFloat (getStr j "std"), bitsToFloat (getStr j "coslat"), bitsToFloat (getStr j "weights")⟩
